@@ -470,15 +470,23 @@ impl AuthSender {
     pub fn clone(&self) -> (r: AuthSender) { unimplemented!() }
 }
 pub struct RoomMutationWriteQuery { pub room_list: HashSet<Uid>, pub mutation_query: MutationQuery, pub reply: ReplySender<Result<MutationQuery>> }
+pub struct StreamSender<T> { x: Option<T> }
+impl<T> StreamSender<T> {
+    #[verifier::external_body]
+    pub async fn send(&self, t: T) -> (r: std::result::Result<(), SendErr>) { unimplemented!() }
+}
+pub struct RoomMutationStreamWriteQuery { pub room_list: HashSet<Uid>, pub mutation_query: MutationQuery, pub reply: StreamSender<Result<MutationQuery>> }
 pub enum WriteMessage {
     Deletion(DeletionQuery, ReplySender<Result<DeletionQuery>>),
     Mutation(MutationQuery, ReplySender<Result<MutationQuery>>),
     RoomMutation(RoomMutationWriteQuery, AuthSender),
+    MutationStream(MutationQuery, StreamSender<Result<MutationQuery>>),
+    RoomMutationStream(RoomMutationStreamWriteQuery, AuthSender),
 }
 /// the batch writer: what it REQUIRES of a local write is the property's "refused operations change nothing" seen from the caller
 pub struct BufferedDatabaseWriter { x: u8 }
 pub open spec fn wm_deletion(m: WriteMessage) -> DeletionQuery { match m { WriteMessage::Deletion(q, _) => q, _ => arbitrary() } }
-pub open spec fn wm_query(m: WriteMessage) -> MutationQuery { match m { WriteMessage::Mutation(q, _) => q, WriteMessage::RoomMutation(q, _) => q.mutation_query, WriteMessage::Deletion(_, _) => arbitrary() } }
+pub open spec fn wm_query(m: WriteMessage) -> MutationQuery { match m { WriteMessage::Mutation(q, _) => q, WriteMessage::RoomMutation(q, _) => q.mutation_query, WriteMessage::MutationStream(q, _) => q, WriteMessage::RoomMutationStream(q, _) => q.mutation_query, WriteMessage::Deletion(_, _) => arbitrary() } }
 // E8 cut: `for room in rooms { room_list.insert(room.id); }` (the ids of the rooms changed by the mutation)
 #[verifier::external_body]
 pub fn cut_collect_room_ids(room_list: &mut HashSet<Uid>, rooms: Vec<Room>) { unimplemented!() }
@@ -495,6 +503,19 @@ impl BufferedDatabaseWriter {
 //@ cut "for room in rooms" => "cut_collect_room_ids(&mut room_list, rooms);"
 //@ insert-each before-stmt "let _ = database_writer.send(query).await;"
                             // [only_validated_mutations_reach_the_writer]{C01} a local mutation is handed to the writer only after validate_mutation accepted it, and it is the validated query that is handed over
+                            assert(mutation_validated(*auth, wm_query(query)));
+//@ spec
+        requires rooms_wf(*old(auth)),
+//@ end
+
+//@ extract src/database/authorisation_service.rs :: impl AuthorisationService / fn process_message as AuthorisationService::lifted_local_mutation_stream
+//@ lift "AuthorisationMessage::MutationStream(mut mutation_query, reply) =>" :: async fn lifted_local_mutation_stream(mutation_query0: MutationQuery, reply: StreamSender<Result<MutationQuery>>, auth: &mut RoomAuthorisations, database_writer: &BufferedDatabaseWriter, self_sender: &AuthSender)
+//@ attr #[verifier::exec_allows_no_decreases_clause]
+//@ insert body-start
+                let mut mutation_query = mutation_query0;   // E9: `mut mutation_query` of the match arm
+//@ cut "for room in rooms" => "cut_collect_room_ids(&mut room_list, rooms);"
+//@ insert-each before-stmt "let _ = database_writer.send(query).await;"
+                            // [only_validated_streamed_mutations_reach_the_writer]{C01} a mutation of a mutation stream is handed to the writer only after validate_mutation accepted it
                             assert(mutation_validated(*auth, wm_query(query)));
 //@ spec
         requires rooms_wf(*old(auth)),
